@@ -12,11 +12,17 @@ package redisemu
 //@ guarded global.signals by atomic
 
 //@ func newClientState
-//@ prop C16
+//@ prop C16 C12 C20
 //@ guards on
 //@ safetyprop none
-//@ requires dispatcher != nil && dispatcher.dss != nil
+//@ requires dispatcher != nil && dssOK(dispatcher.dss)
+//@ requires wf: forall j int :: dbsWF(dispatcher.dss, j)
+//@ requires free registry: clients != nil
 //@ modifies *
+// whoever unblocks a connection (CLIENT UNBLOCK, kill, close, termination) posts the reason while it owns the capture
+// word and, for termination, the emulator's lock: the post must not wait for the blocked command to be reading (the
+// command may be leaving on its own and then spins for the capture word): one buffered slot, one post per capture
+//@ ensures [C12,C20] unblock.buffered: result != nil && cap(result.unblockCh) >= 1
 
 //@ func isClientActive
 //@ prop C16
@@ -72,6 +78,10 @@ package redisemu
 // connections under that mutex (cmdContext.infoUnlocked); the owner reads them
 // without the lock
 //@ guarded writes clientState.name clientState.respVersion clientState.watches clientState.selectedDb clientState.ds by mutex mu
+// the transaction-replay flag is read by other connections (CLIENT LIST) and the close request flags
+// of a connection are written by whoever asks it to close: every access is under the owner's mutex
+//@ guarded clientState.multiInProgress by mutex mu
+//@ guarded clientCxn.closing clientCxn.waiting by mutex mu
 
 //@ func clientState.setName
 //@ prop C16
